@@ -38,9 +38,10 @@ def candidates():
                 for op in mixops:
                     d = "%s<%s> %s bare %s" % (n, tn, op, bn)
                     out[d] = ("mixed", "c12::native_mixed<%s,%s,%s,c12::%s>" % (wtype(n, tc), tc, bc, op))
-    fx = [("short", "i16", -8, -8), ("short", "i16", -4, -10), ("int", "i32", -16, -16), ("int", "i32", -8, -20), ("signed char", "i8", -3, -4), ("long", "i64", -30, -30), ("unsigned short", "u16", -8, -8), ("unsigned", "u32", -16, -8)]
+    fx = [("short", "i16", -8, -8), ("short", "i16", -4, -10), ("int", "i32", -16, -16), ("int", "i32", -8, -20), ("signed char", "i8", -3, -4), ("long", "i64", -30, -30), ("unsigned short", "u16", -8, -8), ("unsigned", "u32", -16, -8),
+          ("signed char", "i8", -4, 0), ("signed char", "i8", 0, -4), ("unsigned char", "u8", -2, -6), ("short", "i16", -10, -4), ("unsigned short", "u16", 0, -8), ("int", "i32", -20, -8)]
     for tc, tn, e1, e2 in fx:
-        for k in ["MULWIDEN", "MIXADD", "AVERAGE", "SQUARE", "INCDEC"]:
+        for k in ["MULWIDEN", "MIXADD", "AVERAGE", "SQUARE", "INCDEC", "MIXCMP"]:
             d = "fixed<%s,%d,%d> %s" % (tn, e1, e2, k)
             out[d] = ("fixed", "c12::fixedpoint<%s,%d,%d,c12::%s>" % (tc, e1, e2, k))
     return out
